@@ -153,6 +153,14 @@ func (f *FuncInfo) MustPassBefore(via []Point, to Point) (bool, []Point) {
 // MustPassAfter: does every path from just after `from` to a return exit pass
 // through one of `via`? Panic exits owe nothing.
 func (f *FuncInfo) MustPassAfter(from Point, via []Point) (bool, []Point) {
+	// `from` evaluated inside a return statement (return f(x)): the function exits with this node, so
+	// nothing can follow it (searching from the next index would find no exit and pass vacuously)
+	if _, isRet := from.Node().(*ast.ReturnStmt); isRet {
+		if PointSet(via...)(from) {
+			return true, nil
+		}
+		return false, []Point{from}
+	}
 	path, found := PathQuery{F: f, From: from, FromAfter: true, Avoid: PointSet(via...), TargetExit: true}.Find()
 	return !found, path
 }
